@@ -114,6 +114,9 @@ func (x *Exec) atCallAssertionsCallee(s *State, site ssa.Instruction, calleeName
 		for k, v := range x.extraLets {
 			env.lets[k] = v
 		}
+		if ac.Pred != nil {
+			x.checkParamsUnchanged(s, ac.Pred.Expr, "at-call "+ac.Callee+" ["+ac.Pred.Label+"]")
+		}
 		if ac.Effect != nil {
 			// ghost update at the call: g_x == expr
 			if be, ok := ac.Effect.Expr.(*ast.BinaryExpr); ok && be.Op == token.EQL {
@@ -944,4 +947,57 @@ func (x *Exec) autoInlinable(s *State, fn *ssa.Function) bool {
 		}
 	}
 	return n <= 60 && len(fn.Blocks) <= 8
+}
+
+// checkParamsUnchanged: an at-call / at-send clause that names a parameter
+// means the value the caller passed. If the function has assigned to that
+// parameter by the time the clause is evaluated, the bare name would silently
+// denote the new value and the clause would say less than it was written to
+// say; the contract must then say old(p) (entry value) or cur(p) (current).
+func (x *Exec) checkParamsUnchanged(s *State, e ast.Expr, what string) {
+	if len(s.frames) == 0 || s.top().fn != x.fn {
+		return
+	}
+	var visit func(n ast.Node) bool
+	visit = func(n ast.Node) bool {
+		switch t := n.(type) {
+		case *ast.CallExpr:
+			if id, ok := t.Fun.(*ast.Ident); ok && (id.Name == "old" || id.Name == "cur") {
+				return false
+			}
+		case *ast.SelectorExpr:
+			ast.Inspect(t.X, visit)
+			return false
+		case *ast.Ident:
+			entry, isParam := x.params[t.Name]
+			if !isParam {
+				return true
+			}
+			cur, ok := s.top().names[t.Name]
+			if !ok {
+				return true
+			}
+			same := entry == cur
+			if et, ok := entry.(*Term); ok {
+				if ct, ok := cur.(*Term); ok {
+					same = termEq(et, ct)
+				}
+			}
+			if sv, ok := entry.(*SliceV); ok {
+				if cv, ok := cur.(*SliceV); ok {
+					same = sv.Obj == cv.Obj && termEq(sv.Off, cv.Off) && termEq(sv.Len, cv.Len)
+				}
+			}
+			if pv, ok := entry.(*PtrV); ok {
+				if cv, ok := cur.(*PtrV); ok {
+					same = pv.Obj == cv.Obj
+				}
+			}
+			if !same {
+				x.errorf("%s names parameter %s, which %s has assigned to before this point: write old(%s) for the value passed in or cur(%s) for the current one", what, t.Name, fnDisplay(x.fn), t.Name, t.Name)
+			}
+		}
+		return true
+	}
+	ast.Inspect(e, visit)
 }
